@@ -592,6 +592,69 @@ func rankVamana(w *load.World, c *core.Collector) {
 			c.Add("RANK", "vamana:filtered-set-separate", core.OK, w.Position(gs.Pos()), "", props...)
 		}
 	}
+	// the visiting loop looks at as many candidates as the search set was sized for: the bound next to
+	// len(items) in the loop test is the very value NewDistSet was given for the search set (the query's
+	// search size, not the index's build-time one)
+	{
+		var capArg ssa.Value
+		var searchSetCell ssa.Value
+		for _, b := range gs.Blocks {
+			for _, in := range b.Instrs {
+				call, ok := in.(*ssa.Call)
+				if !ok || call.Call.StaticCallee() == nil || call.Call.StaticCallee().Name() != "NewDistSet" || capArg != nil {
+					continue
+				}
+				capArg = call.Call.Args[0]
+				for _, r := range *call.Referrers() {
+					if st, ok := r.(*ssa.Store); ok && st.Val == ssa.Value(call) {
+						searchSetCell = st.Addr
+					}
+				}
+			}
+		}
+		checked, okBound := 0, true
+		for _, b := range gs.Blocks {
+			for _, in := range b.Instrs {
+				call, ok := in.(*ssa.Call)
+				if !ok {
+					continue
+				}
+				bi, ok := call.Call.Value.(*ssa.Builtin)
+				if !ok || bi.Name() != "min" || len(call.Call.Args) != 2 || !inLoop(b) {
+					continue
+				}
+				for k := 0; k < 2; k++ {
+					lc, ok := call.Call.Args[k].(*ssa.Call)
+					if !ok {
+						continue
+					}
+					lb, ok := lc.Call.Value.(*ssa.Builtin)
+					if !ok || lb.Name() != "len" {
+						continue
+					}
+					p, _ := ssax.Path(lc.Call.Args[0])
+					cp, _ := ssax.Path(searchSetCell)
+					if searchSetCell == nil || !strings.HasPrefix(strings.TrimSuffix(p, "*"), strings.TrimSuffix(cp, "*")) {
+						continue
+					}
+					checked++
+					other := call.Call.Args[1-k]
+					po, _ := ssax.Path(other)
+					pc, _ := ssax.Path(capArg)
+					if !(peelToParam(other) == peelToParam(capArg) || (po != "" && po == pc)) {
+						okBound = false
+					}
+				}
+			}
+		}
+		if checked > 0 {
+			if okBound {
+				c.Add("RANK", "vamana:visit-bound", core.OK, w.Position(gs.Pos()), "", props...)
+			} else {
+				c.Add("RANK", "vamana:visit-bound", core.Violation, w.Position(gs.Pos()), "the visiting loop is bounded by something other than the size the search set was created with: with a larger query search size the candidates beyond that bound are never expanded and reachable nearest neighbours are missed", props...)
+			}
+		}
+	}
 	if n < 2 {
 		c.Add("RANK", "anchor:vamana-filter-adds", core.Undecided, w.Position(gs.Pos()), fmt.Sprintf("found %d adds to the filtered result set in greedySearch, expected 2", n), props...)
 	}
